@@ -32,6 +32,9 @@ func TestMain(m *testing.M) {
 	ev.Main(m, "C05")
 }
 
+var sharedMsg [64]byte
+var sharedMu sync.Mutex
+
 type rtCase struct {
 	Zone   string  `json:"zone"`
 	Kind   string  `json:"kind"` // request | response | event | event-v6.62
@@ -202,6 +205,24 @@ func decideRTNoZone(c rtCase) (*rp.Fail, string, bool) {
 				fail = rp.Failf("codec.Unmarshal/result-shared-between-decodes", "%s in zone %s: after the caller overwrote what an earlier decoded value pointed to, decoding the same bytes %x gives another value: %s", typeName, c.Zone, enc, d)
 				return
 			}
+		}
+		// a receive buffer that is reused: every message of the run is also decoded out of ONE 64-byte array whose contents are
+		// replaced in place - the result depends on the bytes that are there at the time of the call
+		sharedMu.Lock()
+		copy(sharedMsg[:], enc)
+		reused, err := decode(sharedMsg[:])
+		var reusedCanon []string
+		if err == nil {
+			reusedCanon = fv.CanonAll(reused)
+		}
+		sharedMu.Unlock()
+		if err != nil {
+			fail = rp.Failf("codec.Unmarshal/rejects-own-encoding", "%s: decoding %x out of a reused buffer failed: %v", typeName, enc, err)
+			return
+		}
+		if d := fv.FirstDiff(before, reusedCanon); d != "" {
+			fail = rp.Failf("codec.Unmarshal/depends-on-earlier-buffer-contents", "%s in zone %s: the message %x decoded out of a buffer that held another message before gives another value: %s", typeName, c.Zone, enc, d)
+			return
 		}
 		// metamorphic: noise in the bytes that belong to no field
 		noisy := append([]byte(nil), enc...)
